@@ -159,7 +159,8 @@ impl DataWriterQos {
         // QoS to be consistent, they must verify that *depth <= max_samples_per_instance.*
         match self.history.kind {
             HistoryQosPolicyKind::KeepLast(depth) => {
-                if depth as usize > self.resource_limits.max_samples_per_instance {
+                // KEEP_LAST needs room for at least the most recent sample
+                if depth == 0 || depth as usize > self.resource_limits.max_samples_per_instance {
                     Err(DdsError::InconsistentPolicy)
                 } else {
                     Ok(())
@@ -302,7 +303,8 @@ impl DataReaderQos {
         // QoS to be consistent, they must verify that *depth <= max_samples_per_instance.*
         match self.history.kind {
             HistoryQosPolicyKind::KeepLast(depth) => {
-                if depth as usize > self.resource_limits.max_samples_per_instance {
+                // KEEP_LAST needs room for at least the most recent sample
+                if depth == 0 || depth as usize > self.resource_limits.max_samples_per_instance {
                     return Err(DdsError::InconsistentPolicy);
                 }
             }
@@ -410,7 +412,8 @@ impl TopicQos {
         // QoS to be consistent, they must verify that *depth <= max_samples_per_instance.*
         match self.history.kind {
             HistoryQosPolicyKind::KeepLast(depth) => {
-                if depth as usize > self.resource_limits.max_samples_per_instance {
+                // KEEP_LAST needs room for at least the most recent sample
+                if depth == 0 || depth as usize > self.resource_limits.max_samples_per_instance {
                     Err(DdsError::InconsistentPolicy)
                 } else {
                     Ok(())
